@@ -7,6 +7,5 @@ MCRefV == <<4096, 12345, 5>>
 MCRefAttr == <<1, 1, 2>>
 MCRefE == {<<4096, 12345>>, <<5, 12345>>}
 G(V, E) == [v |-> V, e |-> E]
-MCInits == { G({}, {}), G({7}, {}), G({7, 2}, {<<2, 7>>}), G({7, 2, 100}, {<<2, 7>>, <<7, 100>>}),
-             G({7, 2, 100}, {<<2, 7>>, <<7, 100>>, <<2, 100>>}), G({7, 2, 100}, {<<2, 100>>}) }
+MCInits == { G({}, {}), G({7, 2}, {<<2, 7>>}), G({7, 2, 100}, {<<2, 7>>, <<7, 100>>}), G({7, 2, 100}, {<<2, 100>>}) }
 ====
